@@ -594,6 +594,13 @@ class ExcAnalysis:
         else:
             if self.cfg.indirect is not None:
                 targets = self.cfg.indirect(call, fn)
+            if targets is None and isinstance(call.func, ast.Name):
+                owner: Func | None = fn
+                while owner is not None:
+                    if len(owner.nested_all.get(call.func.id, [])) > 1:
+                        targets = list(owner.nested_all[call.func.id])  # same name defined in several branches
+                        break
+                    owner = owner.parent
             if targets is None:
                 targets, how = self.R.callees(call, fn, count=False)
                 if how in ("external", "unresolved") or (how == "fallback" and isinstance(call.func, ast.Name)):
@@ -682,7 +689,7 @@ class ExcAnalysis:
             owner: Func | None = fn
             while owner is not None:
                 if e.id in owner.nested:
-                    return [owner.nested[e.id]]
+                    return list(owner.nested_all.get(e.id) or [owner.nested[e.id]])
                 if e.id in {a.arg for a in owner.params}:
                     return self._param_bindings(owner, e.id, depth, seen)
                 defs = self.R.scope(owner).defs.get(e.id)
